@@ -308,7 +308,7 @@ def exec_script(ctx, comp, script, tag, want_model=True, race=False, env=None, t
             impl[j] = 'CRASH rc=%s' % rc if j == bad else 'CRASH-skipped'
         pos = c[1]
     model = [None] * len(script)
-    if want_model and ctx.model_ok:
+    if want_model and ctx.model_ok and comp.differential:
         mo = os.path.join(ctx.work, tag + '.model')
         rc, err = run_model(comp.name, sp, mo)
         got = read_lines(mo)
@@ -558,6 +558,10 @@ def run_check(prop_id, tier, seed, replay):
                                                    broken=[list(b) for b in ctx.broken][:10]))
         ctx.violations.append(dict(replay=path, note=probs[0][:300]))
         print('VIOLATION property=%s replay=%s' % (prop.id, path), flush=True)
+        for pr in probs[:4]:
+            print('  detail: %s' % pr[:500], flush=True)
+        for l in small[:14]:
+            print('  script: %s' % l[:300], flush=True)
         new_violation = True
         if len(ctx.violations) >= 5:
             break
